@@ -57,7 +57,7 @@ func ZZC20(n int) {
 		return zzv.Bytes("k", 1)
 	}
 	for i := 0; i < n/10; i++ {
-		switch zzv.Choice("op", 5) {
+		switch zzv.Choice("op", 6) {
 		case 0:
 			k, v := key(), zzv.Bytes("v", n%10)
 			ctx.Set(k, v)
@@ -81,6 +81,15 @@ func ZZC20(n int) {
 			k := key()
 			ctx.Params().Set(k, "z")
 			sh = zzShadowSet(sh, k, "z")
+		case 5: // the old holder writes to the context after releasing it; the next holder must still start empty
+			old := ctx
+			ctx.Destroy()
+			old.Set("stale", "1")
+			old.Path = "/stale"
+			ctx = NewContext()
+			sh = nil
+			zzv.Cover("pool-reuse-after-late-write")
+			zzv.Assert(ctx.Count() == 0 && ctx.Path == "", "pooled-context-does-not-start-empty")
 		}
 	}
 	zzv.Cover("sequence")
